@@ -293,6 +293,10 @@ theorem extendMinor_rows (M : List MapRow) (cg : CoarseGrid) (dtFine : List Rat)
   · injection h with h; subst h; rfl
   · cases h
 
+/-- an asset that is not active in the horizon (empty mapping, e.g. a coarse asset whose window lies entirely
+    outside it): nothing to extend, the empty mapping comes back (the code used to raise `KeyError` here) -/
+example (cg : CoarseGrid) (dtFine : List Rat) : extendMinor [] cg dtFine = .ok [] := rfl
+
 /-- non-vacuity: hourly grid, one coarse step of four hours; a transport (factors −1 and efficiency 1/2, one
     variable, two rows): every minor step gets a quarter of the row's factor -/
 example :
